@@ -289,3 +289,65 @@ Proof.
   split; [apply CompressGraphOk.exts_sym_palb_sound; vm_compute; reflexivity | vm_compute; reflexivity].
 Qed.
 Print Assumptions C03_nonvacuous_compress_graph_ok.
+
+(* ==== edges = observed adjacencies, for the DIRECT pipeline model (work package e2e) ============================= *)
+(* C03_edges_are_observed_direct: for the direct pipeline model (filter_kmers with CountFilterSet on the whole reads ->
+   sort -> remove_censored_exts when thr > 1 -> any duplicate-free iteration order of the table -> compress_kmers), K >= 4,
+   reads over {A,C,G,T}: the k-mers of the graph are exactly the retained k-mers (each once) and the adjacencies the graph
+   denotes - every (K+1)-window of every node sequence plus, for every node end and every base of its extension set, the
+   (K+1)-mer formed by the end k-mer and that base, canonical when unstranded ([graph_links], Check/PipelineCheck.v) - are,
+   as a set, exactly the (K+1)-windows of the reads whose two k-mers both occur >= thr times ([observed_adjs] of
+   Spec/EdgeSpec.v = [spec_links] of Check/PipelineCheck.v).  No checker is involved: this is the composition C05
+   (filter_spec) o pruning (remove_censored_exact) o C01 (partition, steps, terminal_exts) at model level that
+   C03_edges_are_observed_partial left to the run.
+   NOT covered here: the reading of the end extensions through find_edges / find_link (that every extension of a node end
+   resolves to a node end, i.e. [valid_graph] for the produced graph; C03_compress_graph_ok gives [graph_ok]) - the
+   adjacency set is stated on the extension bytes of the node ends, which is what find_edges enumerates. *)
+From DBG Require Algo.Pipeline Check.PipelineCheck Proofs.E2eDirect Proofs.E2eCorollaries.
+
+Theorem C03_edges_are_observed_direct : forall K st thr mode (lreads : list Pipeline.lread) order g,
+  4 <= K -> Forall (fun r => wf_dna (fst r)) lreads -> NoDup order ->
+  Pipeline.direct K st thr mode 0 lreads order = Some g ->
+  Permutation.Permutation (PipelineCheck.graph_kmers K st g) (PipelineCheck.retained K st thr (map fst lreads)) /\
+  (forall w, In w (PipelineCheck.graph_links K st g) <-> In w (PipelineCheck.spec_links K st thr (map fst lreads))) /\
+  (forall w, In w (PipelineCheck.graph_links K st g) <-> In w (observed_adjs K st (N.to_nat thr) (map fst lreads))).
+Proof.
+  intros K st thr mode lreads order g HK Hwf Hnd Hd.
+  destruct (E2eCorollaries.edges_are_observed_direct K st thr mode lreads order g HK Hwf Hnd Hd) as [H1 H2].
+  split; [exact H1|]. split; [exact H2|]. exact (E2eCorollaries.edges_are_observed_direct' K st thr mode lreads order g HK Hwf Hnd Hd).
+Qed.
+Print Assumptions C03_edges_are_observed_direct.
+
+(* the two Layer-S adjacency specifications coincide *)
+Theorem C03_observed_adjs_spec_links : forall K st thr reads,
+  observed_adjs K st (N.to_nat thr) reads = PipelineCheck.spec_links K st thr reads.
+Proof. exact E2eCorollaries.observed_adjs_spec_links. Qed.
+Print Assumptions C03_observed_adjs_spec_links.
+
+(* the table handed to the compressor meets C01's and C03's hypotheses (announced above as "decidable but not proved
+   here"): filter_kmers + remove_censored_exts tables are tbl_ok, exts_sym and exts_sym_pal *)
+Theorem C03_direct_table_hyps : forall K st thr (lreads : list Pipeline.lread) order T,
+  4 <= K -> Forall (fun r => wf_dna (fst r)) lreads -> NoDup order ->
+  Pipeline.table_of K st thr (if (1 <? thr)%N then 1%N else 0%N) (Pipeline.whole_reads lreads) order = Some T ->
+  CompressSpec.tbl_ok GraphCheck.pay K st T /\ CompressSpec.exts_sym GraphCheck.pay st T /\
+  CompressGraphOk.exts_sym_pal GraphCheck.pay st T /\ CompressSpec.exts_closed GraphCheck.pay st T.
+Proof. exact E2eCorollaries.direct_table_hyps. Qed.
+Print Assumptions C03_direct_table_hyps.
+
+(* non-vacuity: K = 4, unstranded, threshold 2 (pruning active): ACGGTCCATG twice and CATGGTA once; the graph has the
+   7 retained k-mers and the 6 observed adjacencies between them (CATG is a palindrome) *)
+Definition C03_ex_reads : list Pipeline.lread := [([0;1;2;2;3;1;1;0;3;2], 0); ([0;1;2;2;3;1;1;0;3;2], 1); ([1;0;3;2;2;3;0], 1)]%N.
+Definition C03_ex_order : list dna := Eval vm_compute in rev (PipelineCheck.retained 4 false 2 (map fst C03_ex_reads)).
+Example C03_nonvacuous_direct :
+  Forall (fun r => wf_dna (fst r)) C03_ex_reads /\ NoDup C03_ex_order /\
+  exists g, Pipeline.direct 4 false 2 0 0 C03_ex_reads C03_ex_order = Some g /\
+    length (PipelineCheck.graph_kmers 4 false g) = 7 /\
+    length (nodup (list_eq_dec N.eq_dec) (observed_adjs 4 false 2 (map fst C03_ex_reads))) = 6 /\
+    existsb is_palindrome (PipelineCheck.graph_kmers 4 false g) = true.
+Proof.
+  split; [repeat constructor; cbv; auto|]. split.
+  - replace C03_ex_order with (rev (PipelineCheck.retained 4 false 2 (map fst C03_ex_reads))) by (vm_compute; reflexivity).
+    eapply Permutation.Permutation_NoDup; [apply Permutation.Permutation_rev | apply PipelineCheckProofs.retained_nodup].
+  - eexists. split; [vm_compute; reflexivity|]. repeat split; vm_compute; reflexivity.
+Qed.
+Print Assumptions C03_nonvacuous_direct.
